@@ -67,6 +67,8 @@ def parseOp (ws : List String) : Option Op :=
   | ["order", id, m, owner, _kind] => do pure (.order (← parseNat? id) (← parseNat? m) (parseText owner))
   | ["setid", m, id, caller, ext] => do
     pure (.setid (← parseNat? m) (← parseNat? id) (parseText caller) (if ext = "-" then "" else ext))
+  | ["settle", m, ask, bid, caller] => do
+    pure (.settle (← parseNat? m) (← parseNat? ask) (← parseNat? bid) (parseText caller))
   | ["commit", m, acct] => do pure (.commit (← parseNat? m) acct)
   | ["release", m, caller, accts] => do pure (.release (← parseNat? m) (parseText caller) (splitList accts))
   | ["cancel", id, signer] => do pure (.cancel (← parseNat? id) (parseText signer))
@@ -140,6 +142,19 @@ def verdict (s : State) (op : Op) (r : String) (tag : String := "") : String :=
           "fail:endpoint_without_perm_in_item_market:MarketSetOrderExternalID"
         else if !allowed then "fail:endpoint_without_perm:MarketSetOrderExternalID" else "ok"
     else if r = "err:perm" ∧ allowed then "fail:endpoint_rejects_permitted:MarketSetOrderExternalID" else "ok"
+  | .settle m ask bid caller =>
+    let allowed := endpointAllowed s .MarketSettle m caller
+    if r = "pass" ∧ !allowed then "fail:endpoint_without_perm:MarketSettle"
+    else if r = "err:perm" ∧ allowed then "fail:endpoint_rejects_permitted:MarketSettle"
+    else if r = "pass" ∧ tag = "#ok" then
+      -- the settlement was executed: every order it consumed must live in a market whose `settle`
+      -- guard the caller passes
+      if [ask, bid].all fun id =>
+          match s.orders.find? (·.id = id) with
+          | none => false
+          | some o => endpointAllowed s .MarketSettle o.market caller
+      then "ok" else "fail:endpoint_without_perm_in_item_market:MarketSettle"
+    else "ok"
   | .commit .. => "-"
   | .release m caller _ =>
     -- owning the committed funds is not a permission
